@@ -143,6 +143,11 @@ def run(tier, rnd, out):
     run_threads(tier, out, rnd)
     zones = ["UTC", "Asia/Jerusalem", "America/Los_Angeles", "Pacific/Kiritimati"] if tier == "quick" else world.ZONES_QUICK + ["America/Los_Angeles", "Asia/Tokyo", "Europe/London"]
     for c in lib.load_corpus("C13"): run_zone(out, "corpus", c["zone"], [c])
+    # every minute of a day: the clock in the very minute of the start (and one minute to either side), today among the days
+    day0 = rnd.randrange(19000, 20000) * 86400; wd0 = D.datetime.fromtimestamp(day0, D.timezone.utc).weekday()
+    allm = [{"zone": "UTC", "now": day0 + 60 * (m + k) + rnd.randrange(60), "start": "%02d:%02d" % divmod(m, 60), "days": sorted({wd0, rnd.randrange(7)})}
+            for m in range(1440) for k in ((0, -1, 1) if tier == "thorough" or m % 7 == 0 else (0,)) if 0 <= m + k < 1440]
+    run_zone(out, "the-clock-in-the-minute-of-the-start-every-minute-of-the-day", "UTC", allm)
     for zone in zones:
         cs = gen(rnd, zone, tier); run_zone(out, "weekday-set-minute-grid", zone, cs)
         if zone in zones[:2]: run_ticking(out, rnd, zone, 300 if tier == "quick" else 3000)
